@@ -192,6 +192,20 @@ func (e *histEnv) schedOp(t []string) (string, bool) {
 		}
 		schedMu.Unlock()
 		return "ok", true
+	case "poll":
+		// poll <thread> <ms>: the thread's result if it finished within <ms>, else RUNNING (the result stays available)
+		ch, ok := bgRes[t[1]]
+		if !ok {
+			return "NO-SUCH-THREAD", true
+		}
+		ms, _ := strconv.Atoi(t[2])
+		select {
+		case r := <-ch:
+			ch <- r
+			return r, true
+		case <-time.After(time.Duration(ms) * time.Millisecond):
+			return "RUNNING", true
+		}
 	case "wait":
 		ch, ok := bgRes[t[1]]
 		if !ok {
